@@ -127,5 +127,21 @@ def ber_choice_alternatives_of_one_recursive_type():
         return True
 
 
+def ber_retagged_reference_to_recursive_explicit_type():
+    """BER round trip of the recorded value fails (DecodeTagError or another value)."""
+    import json
+    import os
+    core.setup_path()
+    import asn1tools
+    with open(os.path.join(core.VERIF, 'findings', 'data', 'ber-retagged-reference-to-recursive-explicit-type.json')) as f:
+        w = json.load(f)
+    v = core.unjson(w['value'])
+    try:
+        s = asn1tools.compile_string(w['text'], w['codec'])
+        return s.decode(w['type'], s.encode(w['type'], v)) != v
+    except Exception:
+        return True
+
+
 if __name__ == '__main__':
     sys.exit(1 if globals()[sys.argv[1]]() else 0)
